@@ -1142,6 +1142,9 @@ func cmdDeterminism(args []string) int {
 	for _, race := range []bool{false, true} {
 		b := prepare(race)
 		for _, prop := range plist {
+			if race && !props[prop].Race {
+				continue // only the properties whose registered commands use the race build are written race-clean
+			}
 			ref := map[int64]string{}
 			for _, procs := range []string{"1", "4", "16"} {
 				gmp = procs
